@@ -160,6 +160,12 @@ def families(tier):
         fams.append(Pairs('PtPl', pose, points, planes, chunk=2))
         fams.append(Pairs('LnPl', pose, planes, lines, chunk=4))
     fams = A.with_int_mode(fams, tier)
+    # all lines of one lattice plane posed into an upright plane whose horizontal slope (15/11; thorough also 9/7) leaves
+    # rounding noise in an elimination: crossing pairs must have distance 0 AND a non-None intersection
+    flat_pts = [p for p in (A.B0 if tier == 'quick' else A.B1) if p[2] == 0]
+    flat_lines = [X.Ln(p, X.sub(q, p)) for p in flat_pts for q in flat_pts if p != q]
+    for pose in ((A.P5,) if tier == 'quick' else (A.P5, A.P4)):
+        fams.append(Pairs('LnLn-upright', pose, flat_lines, flat_lines, both_orders=False, chunk=4))
     fams.append(ParallelLinePlane(6 if tier == 'quick' else 8))
     step = 9 if tier == 'quick' else 2
     fams.append(Moved('moved', A.P1, planes[::step], lines[::step] + points[::3], chunk=2))
